@@ -1,11 +1,630 @@
 /-
 C01 — Solution-set verdict equals the predicate-graph reference semantics.
--/
-import Essential.Model.Check
-import Essential.Props.C06
-import Essential.Props.C03
 
+`R : node ↦ result` is a *reference evaluation* of the graph when every node's result is the
+run of its program on the concatenation of its parents' results (ascending parent order, with
+multiplicity).  The theorems say that the checker's two passes compute exactly such an `R`:
+each node once, after its parents, from exactly those inputs — whatever the numbering.
+-/
+import Essential.Lemmas.Refine
+import Essential.Props.C03
+import Essential.Props.C06
+
+set_option linter.unusedSimpArgs false
+set_option linter.unusedVariables false
 namespace Essential.C01
-open Essential
+open Essential Essential.Kahn Essential.Refine
+
+/-! ### the level order: every node exactly once, parents first -/
+
+/-- **each node is scheduled exactly once**: the levels of an accepted graph, flattened, are a
+permutation of the node indices -/
+theorem levels_perm (p : Predicate) (ls : List (List Nat)) (h : topoSort p = .ok ls) :
+    ls.flatten.Perm (List.range p.nodes.length) := by
+  obtain ⟨hp, hc⟩ := topoSort_planned p ls h
+  have hn : ls.flatten.Nodup := by simpa using planned_nodup p ls [] List.nodup_nil hp
+  rw [List.perm_ext_iff_of_nodup hn List.nodup_range]
+  intro v
+  simp only [List.mem_range]
+  constructor
+  · intro hv
+    obtain ⟨lv, hlv, hv'⟩ := List.mem_flatten.mp hv
+    exact C06.topoSort_lt p ls h lv hlv v hv'
+  · exact hc v
+
+/-- **after all of its parents**: in the level order, every parent of a node sits in a strictly earlier level -/
+theorem parents_earlier (p : Predicate) (ls : List (List Nat)) (h : topoSort p = .ok ls) :
+    Planned p [] ls := (topoSort_planned p ls h).1
+
+/-- **ascending parent order, with multiplicity**: the parent list of a node is sorted, and a parent
+connected by `k` parallel edges occurs `k` times -/
+theorem parents_ascending (p : Predicate) (v : Nat) : (parentsOf p v).Pairwise (· ≤ ·) := by
+  unfold parentsOf
+  have gen : ∀ (l : List Nat), l.Pairwise (· < ·) →
+      (l.flatMap fun u => ((edgesOf p u).filter (· == v)).map fun _ => u).Pairwise (· ≤ ·) := by
+    intro l
+    induction l with
+    | nil => intro _; simp
+    | cons a l ih =>
+      intro hl
+      simp only [List.flatMap_cons, List.pairwise_append]
+      have hl' := List.pairwise_cons.mp hl
+      refine ⟨?_, ih hl'.2, ?_⟩
+      · rw [List.pairwise_map]
+        exact List.Pairwise.imp (fun _ => Nat.le_refl a) (List.pairwise_of_forall (fun _ _ => trivial) : List.Pairwise (fun _ _ => True) _)
+      · intro x hx y hy
+        simp only [List.mem_map] at hx
+        obtain ⟨_, _, rfl⟩ := hx
+        simp only [List.mem_flatMap, List.mem_map] at hy
+        obtain ⟨u, hu, _, _, rfl⟩ := hy
+        exact Nat.le_of_lt (hl'.1 u hu)
+  exact gen _ List.pairwise_lt_range
+
+theorem parents_multiplicity (p : Predicate) (u v : Nat) (hu : u < p.nodes.length) :
+    (parentsOf p v).count u = (edgesOf p u).count v := by
+  unfold parentsOf
+  rw [List.count_flatMap]
+  have : ∀ (l : List Nat), l.Nodup → u ∈ l →
+      (l.map (List.count u ∘ fun u' => ((edgesOf p u').filter (· == v)).map fun _ => u')).sum = (edgesOf p u).count v := by
+    intro l
+    induction l with
+    | nil => intro _ h; cases h
+    | cons a l ih =>
+      intro hn hm
+      simp only [List.nodup_cons] at hn
+      simp only [List.map_cons, List.sum_cons, Function.comp]
+      by_cases hau : a = u
+      · subst hau
+        have zero : ∀ (l : List Nat), a ∉ l →
+            (l.map fun x => List.count a (((edgesOf p x).filter (· == v)).map fun _ => x)).sum = 0 := by
+          intro l
+          induction l with
+          | nil => intro _; rfl
+          | cons b l ih =>
+            intro hb
+            have hba : b ≠ a := fun e => hb (by simp [e])
+            have z : (((edgesOf p b).filter (· == v)).map fun _ => b).count a = 0 := by
+              rw [List.count_eq_zero]
+              intro hmem
+              simp only [List.mem_map] at hmem
+              obtain ⟨_, _, e⟩ := hmem
+              exact hba e
+            simp only [List.map_cons, List.sum_cons, z, Nat.zero_add]
+            exact ih (fun h => hb (by simp [h]))
+        have z0 := zero l hn.1
+        have e0 : (List.count a ∘ fun u' => ((edgesOf p u').filter (· == v)).map fun _ => u') =
+            fun x => List.count a (((edgesOf p x).filter (· == v)).map fun _ => x) := rfl
+        rw [e0, z0, Nat.add_zero]
+        have : ∀ (es : List Nat), (es.map fun _ => a).count a = es.length := by
+          intro es; induction es with
+          | nil => rfl
+          | cons e es ih => simp [List.count_cons, ih]
+        rw [this, List.count_eq_length_filter]
+      · have hm' : u ∈ l := by
+          rcases List.mem_cons.mp hm with h | h
+          · exact absurd h.symm hau
+          · exact h
+        have z : (((edgesOf p a).filter (· == v)).map fun _ => a).count u = 0 := by
+          rw [List.count_eq_zero]
+          intro hmem
+          simp only [List.mem_map] at hmem
+          obtain ⟨_, _, e⟩ := hmem
+          exact hau e
+        rw [z, Nat.zero_add]
+        exact ih hn.2 hm'
+  exact this _ List.nodup_range (List.mem_range.mpr hu)
+
+/-! ### the two passes as plans -/
+
+def ChildClosed (p : Predicate) (D : List Nat) : Prop := ∀ u ∈ D, ∀ c ∈ edgesOf p u, c ∈ D
+
+theorem deferred_closed (ce : CheckEnv) (p : Predicate) : ChildClosed p (deferredOf ce p) := by
+  intro u hu c hc
+  unfold deferredOf at *
+  rw [C03.find_deferred_spec] at *
+  exact C03.Reach.step hu hc
+
+theorem planned_filter (p : Predicate) (R : Nat → Res String (NodeOut × Nat)) (c0 : Cache) (q : Nat → Bool)
+    (hfresh : ∀ v, q v = true → c0.get v = none)
+    (hpar : ∀ v, q v = true → ∀ u ∈ parentsOf p v, q u = true ∨ c0.get u = parentOut (R u)) :
+    ∀ (ls : List (List Nat)) (S : List Nat), Planned p S ls →
+      PassPlan p R c0 (S.filter q) ((ls.map fun lv => lv.filter q).filter fun lv => lv != []) := by
+  intro ls
+  induction ls with
+  | nil => intro S _; exact trivial
+  | cons lv rest ih =>
+    intro S hp
+    obtain ⟨h1, h2, h3⟩ := hp
+    have hrec := ih (S ++ lv) h3
+    rw [List.filter_append] at hrec
+    simp only [List.map_cons, List.filter_cons]
+    by_cases he : lv.filter q = []
+    · simp only [he, bne_self_eq_false, Bool.false_eq_true, if_false]
+      simpa [he] using hrec
+    · have : (lv.filter q != []) = true := by simp [he]
+      simp only [this, if_true]
+      refine ⟨?_, lt_nodup _ (h2.filter _), hrec⟩
+      intro v hv
+      obtain ⟨hvl, hq⟩ := List.mem_filter.mp hv
+      refine ⟨fun hm => (h1 v hvl).2.1 (List.mem_filter.mp hm).1, hfresh v hq, ?_⟩
+      intro u hu
+      obtain ⟨hun, hue⟩ := (mem_parentsOf p u v).mp hu
+      rcases hpar v hq u hu with hqu | hc
+      · exact Or.inl (List.mem_filter.mpr ⟨(h1 v hvl).2.2 u hun hue, hqu⟩)
+      · exact Or.inr hc
+
+theorem cacheInv_empty (p : Predicate) (D : List Nat) (R) (c0 : Cache) : CacheInv p D R c0 (emptyAcc c0) [] := by
+  constructor
+  · intro u; simp [emptyAcc]
+  · intro u; simp [emptyAcc, Cache.get]
+
+/-- **one pass of `check_predicate` is the processing of the reference results of its nodes** -/
+theorem pass_refines (ce : CheckEnv) (sols : List Solution) (solIx : Nat) (p : Predicate) (ca : Bool) (mode : RunMode)
+    (c0 : Cache) (R : Nat → Res String (NodeOut × Nat)) (levels : List (List Nat))
+    (hb : firstBadNode p = none) (ht : topoSort p = .ok levels)
+    (hplan : PassPlan p R c0 [] (modeLevels mode levels (deferredOf ce p)))
+    (hR : ∀ v ∈ (modeLevels mode levels (deferredOf ce p)).flatten, R v = nodeRunner ce sols solIx p v (refInputs p R v)) :
+    checkPredicateInner ce sols solIx p ca mode c0 =
+      finishInner (processResults p (deferredOf ce p) ca
+        ((modeLevels mode levels (deferredOf ce p)).flatten.map fun v => (v, R v)) (emptyAcc c0)) ∧
+    ∀ acc', processResults p (deferredOf ce p) ca
+        ((modeLevels mode levels (deferredOf ce p)).flatten.map fun v => (v, R v)) (emptyAcc c0) = .ok (acc', false) →
+      CacheInv p (deferredOf ce p) R c0 acc' (modeLevels mode levels (deferredOf ce p)).flatten := by
+  have := runLevels_eq_process p (deferredOf ce p) ca (nodeRunner ce sols solIx p) R c0
+    (modeLevels mode levels (deferredOf ce p)) (emptyAcc c0) [] (cacheInv_empty p _ R c0) (fun u hu => by cases hu) hplan hR
+  refine ⟨?_, fun acc' he => by simpa using this.2 acc' he⟩
+  unfold checkPredicateInner
+  rw [hb, ht]
+  simp only [this.1]
+
+/-! ### the verdict in terms of the reference results -/
+
+/-- a node result that lets the predicate pass: no program error, and a leaf ended `[1]` or `[2]` -/
+def okNode : Res String (NodeOut × Nat) → Bool
+  | .ok (.satisfied false, _) => false
+  | .ok _ => true
+  | _ => false
+
+def nodeGas : Res String (NodeOut × Nat) → Nat
+  | .ok (_, g) => g
+  | _ => 0
+
+def nodeData : Res String (NodeOut × Nat) → Option Memory
+  | .ok (.data m, _) => some m
+  | _ => none
+
+theorem process_all_ok (p : Predicate) (D : List Nat) (ca : Bool) (R : Nat → Res String (NodeOut × Nat)) :
+    ∀ (l : List Nat) (acc : LevelAcc), (∀ v ∈ l, okNode (R v) = true) →
+      ∃ acc', processResults p D ca (l.map fun v => (v, R v)) acc = .ok (acc', false) ∧
+        acc'.failed = acc.failed ∧ acc'.unsatisfied = acc.unsatisfied ∧
+        acc'.gas = (l.map fun v => nodeGas (R v)).foldl satAdd acc.gas ∧
+        acc'.dataOut = acc.dataOut ++ l.filterMap fun v => nodeData (R v) := by
+  intro l
+  induction l with
+  | nil => intro acc _; exact ⟨acc, rfl, rfl, rfl, rfl, by simp⟩
+  | cons v vs ih =>
+    intro acc h
+    have hv := h v (by simp)
+    have hvs : ∀ x ∈ vs, okNode (R x) = true := fun x hx => h x (by simp [hx])
+    cases hr : R v with
+    | panic m => rw [hr] at hv; cases hv
+    | abort m => rw [hr] at hv; cases hv
+    | err e => rw [hr] at hv; cases hv
+    | ok val =>
+      obtain ⟨o, g⟩ := val
+      cases o with
+      | parent s m =>
+        by_cases hs : shouldCache p D v = true
+        · obtain ⟨acc', h1, h2, h3, h4, h5⟩ := ih { acc with cache := acc.cache.insert v (s, m), gas := satAdd acc.gas g } hvs
+          refine ⟨acc', ?_, h2, h3, ?_, ?_⟩
+          · simp only [List.map_cons, hr, processResults, hs, if_true]; exact h1
+          · rw [h4]; simp [hr, nodeGas]
+          · rw [h5]; simp [List.filterMap_cons, hr, nodeData]
+        · obtain ⟨acc', h1, h2, h3, h4, h5⟩ := ih { acc with local_ := acc.local_.insert v (s, m), gas := satAdd acc.gas g } hvs
+          refine ⟨acc', ?_, h2, h3, ?_, ?_⟩
+          · simp only [List.map_cons, hr, processResults, hs, if_false]; exact h1
+          · rw [h4]; simp [hr, nodeGas]
+          · rw [h5]; simp [List.filterMap_cons, hr, nodeData]
+      | data m =>
+        obtain ⟨acc', h1, h2, h3, h4, h5⟩ := ih { acc with dataOut := acc.dataOut ++ [m], gas := satAdd acc.gas g } hvs
+        refine ⟨acc', ?_, h2, h3, ?_, ?_⟩
+        · simp only [List.map_cons, hr, processResults]; exact h1
+        · rw [h4]; simp [hr, nodeGas]
+        · rw [h5]; simp [List.filterMap_cons, hr, nodeData]
+      | satisfied b =>
+        cases b
+        · rw [hr] at hv; cases hv
+        · obtain ⟨acc', h1, h2, h3, h4, h5⟩ := ih { acc with gas := satAdd acc.gas g } hvs
+          refine ⟨acc', ?_, h2, h3, ?_, ?_⟩
+          · simp only [List.map_cons, hr, processResults]; exact h1
+          · rw [h4]; simp [hr, nodeGas]
+          · rw [h5]; simp [List.filterMap_cons, hr, nodeData]
+
+/-- once something failed or is unsatisfied it stays so -/
+theorem process_bad_stays (p : Predicate) (D : List Nat) (ca : Bool) :
+    ∀ (l : List (Nat × Res String (NodeOut × Nat))) (acc : LevelAcc), (acc.failed ≠ [] ∨ acc.unsatisfied ≠ []) →
+      (∀ e ∈ l, (∀ m, e.2 ≠ .panic m) ∧ ∀ m, e.2 ≠ .abort m) →
+      ∃ acc' st, processResults p D ca l acc = .ok (acc', st) ∧ (acc'.failed ≠ [] ∨ acc'.unsatisfied ≠ []) := by
+  intro l
+  induction l with
+  | nil => intro acc h _; exact ⟨acc, false, rfl, h⟩
+  | cons hd tl ih =>
+    intro acc h hnp
+    obtain ⟨node, r⟩ := hd
+    have hhd := hnp (node, r) (by simp)
+    have htl : ∀ e ∈ tl, (∀ m, e.2 ≠ .panic m) ∧ ∀ m, e.2 ≠ .abort m := fun e he => hnp e (by simp [he])
+    cases r with
+    | panic m => exact absurd rfl (hhd.1 m)
+    | abort m => exact absurd rfl (hhd.2 m)
+    | err e =>
+      cases ca
+      · exact ⟨_, true, rfl, Or.inl (by simp)⟩
+      · simp only [processResults, if_true]
+        exact ih _ (Or.inl (by simp)) htl
+    | ok val =>
+      obtain ⟨o, g⟩ := val
+      cases o with
+      | parent s m =>
+        simp only [processResults]
+        apply ih _ _ htl
+        rcases h with h | h
+        · left; split <;> exact h
+        · right; split <;> exact h
+      | data m => simp only [processResults]; exact ih _ h htl
+      | satisfied b =>
+        cases b
+        · simp only [processResults]; exact ih _ (Or.inr (by simp)) htl
+        · simp only [processResults]; exact ih _ h htl
+
+theorem process_some_bad (p : Predicate) (D : List Nat) (ca : Bool) (R : Nat → Res String (NodeOut × Nat)) :
+    ∀ (l : List Nat) (acc : LevelAcc), (∃ v ∈ l, okNode (R v) = false) →
+      (∀ v ∈ l, (∀ m, R v ≠ .panic m) ∧ ∀ m, R v ≠ .abort m) →
+      ∃ acc' st, processResults p D ca (l.map fun v => (v, R v)) acc = .ok (acc', st) ∧ (acc'.failed ≠ [] ∨ acc'.unsatisfied ≠ []) := by
+  intro l
+  induction l with
+  | nil => intro acc h _; obtain ⟨v, hv, _⟩ := h; cases hv
+  | cons v vs ih =>
+    intro acc h hnp
+    have hnp' : ∀ e ∈ vs.map fun v => (v, R v), (∀ m, e.2 ≠ .panic m) ∧ ∀ m, e.2 ≠ .abort m := by
+      intro e he
+      simp only [List.mem_map] at he
+      obtain ⟨x, hx, rfl⟩ := he
+      exact hnp x (by simp [hx])
+    have hnpv := hnp v (by simp)
+    by_cases hv : okNode (R v) = true
+    · -- this node is fine: the bad one is further on
+      have hex : ∃ x ∈ vs, okNode (R x) = false := by
+        obtain ⟨x, hx, hb⟩ := h
+        rcases List.mem_cons.mp hx with rfl | hx
+        · rw [hv] at hb; cases hb
+        · exact ⟨x, hx, hb⟩
+      have hvs := fun x hx => hnp x (List.mem_cons_of_mem v hx)
+      cases hr : R v with
+      | panic m => exact absurd hr (hnpv.1 m)
+      | abort m => exact absurd hr (hnpv.2 m)
+      | err e => rw [hr] at hv; cases hv
+      | ok val =>
+        obtain ⟨o, g⟩ := val
+        cases o with
+        | parent s m => simp only [List.map_cons, hr, processResults]; exact ih _ hex hvs
+        | data m => simp only [List.map_cons, hr, processResults]; exact ih _ hex hvs
+        | satisfied b =>
+          cases b
+          · rw [hr] at hv; cases hv
+          · simp only [List.map_cons, hr, processResults]; exact ih _ hex hvs
+    · have hv' : okNode (R v) = false := by simpa using hv
+      cases hr : R v with
+      | panic m => exact absurd hr (hnpv.1 m)
+      | abort m => exact absurd hr (hnpv.2 m)
+      | err e =>
+        cases ca
+        · exact ⟨_, true, by simp only [List.map_cons, hr, processResults]; rfl, Or.inl (by simp)⟩
+        · simp only [List.map_cons, hr, processResults, if_true]
+          exact process_bad_stays p D true _ _ (Or.inl (by simp)) hnp'
+      | ok val =>
+        obtain ⟨o, g⟩ := val
+        cases o with
+        | parent s m => rw [hr] at hv'; cases hv'
+        | data m => rw [hr] at hv'; cases hv'
+        | satisfied b =>
+          cases b
+          · simp only [List.map_cons, hr, processResults]
+            exact process_bad_stays p D ca _ _ (Or.inr (by simp)) hnp'
+          · rw [hr] at hv'; cases hv'
+
+/-- **the verdict of a pass**: it succeeds exactly when no program of the pass fails and every
+leaf of it ends with `[1]` or `[2]`; then the gas is the saturated sum over the nodes and the data
+outputs are the memories of the `[2]` leaves, in level order -/
+theorem pass_verdict (p : Predicate) (D : List Nat) (ca : Bool) (R : Nat → Res String (NodeOut × Nat)) (N : List Nat) (c0 : Cache)
+    (hnp : ∀ v ∈ N, (∀ m, R v ≠ .panic m) ∧ ∀ m, R v ≠ .abort m) :
+    ((∀ v ∈ N, okNode (R v) = true) →
+      ∃ c', finishInner (processResults p D ca (N.map fun v => (v, R v)) (emptyAcc c0)) =
+        .ok ((N.map fun v => nodeGas (R v)).foldl satAdd 0, N.filterMap (fun v => nodeData (R v)), c')) ∧
+    ((∃ v ∈ N, okNode (R v) = false) →
+      ∃ e, finishInner (processResults p D ca (N.map fun v => (v, R v)) (emptyAcc c0)) = .err e) := by
+  constructor
+  · intro h
+    obtain ⟨acc', h1, h2, h3, h4, h5⟩ := process_all_ok p D ca R N (emptyAcc c0) h
+    refine ⟨acc'.cache, ?_⟩
+    rw [h1]
+    simp only [finishInner, h2, h3, emptyAcc, ne_eq, not_true_eq_false, if_false, h4, h5, List.nil_append]
+  · intro h
+    obtain ⟨acc', st, h1, h2⟩ := process_some_bad p D ca R N (emptyAcc c0) h hnp
+    rw [h1]
+    simp only [finishInner]
+    by_cases hf : acc'.failed ≠ []
+    · exact ⟨_, by rw [if_pos hf]⟩
+    · rcases h2 with h2 | h2
+      · exact absurd h2 hf
+      · exact ⟨_, by rw [if_neg hf, if_pos h2]⟩
+
+/-! ### the two passes of one predicate against one reference evaluation -/
+
+/-- `R` is a reference evaluation of the graph for the two-pass check: every node's result is the
+run of its program — by the second pass's environment if the node is deferred (it sees the
+post-state), by the first pass's otherwise — on the concatenation of its parents' results -/
+def IsRef (ce1 ce2 : CheckEnv) (sols : List Solution) (solIx : Nat) (p : Predicate) (R : Nat → Res String (NodeOut × Nat)) : Prop :=
+  ∀ v, v < p.nodes.length →
+    R v = (if (deferredOf ce1 p).contains v then nodeRunner ce2 sols solIx p v else nodeRunner ce1 sols solIx p v) (refInputs p R v)
+
+theorem process_stop_failed (p : Predicate) (D : List Nat) (ca : Bool) :
+    ∀ (l : List (Nat × Res String (NodeOut × Nat))) (acc acc' : LevelAcc),
+      processResults p D ca l acc = .ok (acc', true) → acc'.failed ≠ [] := by
+  intro l
+  induction l with
+  | nil => intro acc acc' h; simp [processResults] at h
+  | cons hd tl ih =>
+    intro acc acc' h
+    obtain ⟨node, r⟩ := hd
+    cases r with
+    | panic m => simp [processResults] at h
+    | abort m => simp [processResults] at h
+    | err e =>
+      cases ca
+      · simp only [processResults, Bool.false_eq_true, if_false, Res.ok.injEq, Prod.mk.injEq, and_true] at h
+        subst h; simp
+      · simp only [processResults, if_true] at h; exact ih _ _ h
+    | ok val =>
+      obtain ⟨o, g⟩ := val
+      cases o with
+      | parent s m => simp only [processResults] at h; exact ih _ _ h
+      | data m => simp only [processResults] at h; exact ih _ _ h
+      | satisfied b => cases b <;> (simp only [processResults] at h; exact ih _ _ h)
+
+theorem deferredOf_program (ce1 ce2 : CheckEnv) (p : Predicate) (h : ce2.program = ce1.program) :
+    deferredOf ce2 p = deferredOf ce1 p := by
+  unfold deferredOf
+  congr 1
+  funext i
+  unfold isDeferredNode
+  rw [h]
+
+/-- **the two passes of `check_predicate` compute the reference evaluation**: every node is run
+exactly once over the two passes; the first pass is the processing of the reference results of
+the non-deferred nodes; if it succeeds, the second pass — started from the cache the first one
+left — is the processing of the reference results of the deferred nodes, each of which got the
+outputs of *all* its parents (from the shared cache or from this pass) in ascending order -/
+theorem two_pass_predicate_refines (ce1 ce2 : CheckEnv) (hprog : ce2.program = ce1.program) (sols : List Solution) (solIx : Nat)
+    (p : Predicate) (ca : Bool) (R : Nat → Res String (NodeOut × Nat)) (levels : List (List Nat))
+    (hb : firstBadNode p = none) (ht : topoSort p = .ok levels) (hR : IsRef ce1 ce2 sols solIx p R) :
+    ((modeLevels .outputs levels (deferredOf ce1 p)).flatten ++ (modeLevels .checks levels (deferredOf ce1 p)).flatten).Perm
+        (List.range p.nodes.length) ∧
+    checkPredicateInner ce1 sols solIx p ca .outputs [] =
+      finishInner (processResults p (deferredOf ce1 p) ca
+        ((modeLevels .outputs levels (deferredOf ce1 p)).flatten.map fun v => (v, R v)) (emptyAcc [])) ∧
+    ∀ g1 d1 c1, checkPredicateInner ce1 sols solIx p ca .outputs [] = .ok (g1, d1, c1) →
+      checkPredicateInner ce2 sols solIx p ca .checks c1 =
+        finishInner (processResults p (deferredOf ce1 p) ca
+          ((modeLevels .checks levels (deferredOf ce1 p)).flatten.map fun v => (v, R v)) (emptyAcc c1)) := by
+  obtain ⟨hplanned, hcover⟩ := topoSort_planned p levels ht
+  have hperm := levels_perm p levels ht
+  have hcl := deferred_closed ce1 p
+  -- nodes of the first pass
+  have hN1 : ∀ v, v ∈ (modeLevels .outputs levels (deferredOf ce1 p)).flatten ↔ v < p.nodes.length ∧ v ∉ deferredOf ce1 p := by
+    intro v
+    rw [(C03.passes_partition levels (deferredOf ce1 p) v).1, hperm.mem_iff, List.mem_range]
+  have hN2 : ∀ v, v ∈ (modeLevels .checks levels (deferredOf ce1 p)).flatten ↔ v < p.nodes.length ∧ v ∈ deferredOf ce1 p := by
+    intro v
+    rw [(C03.passes_partition levels (deferredOf ce1 p) v).2.1, hperm.mem_iff, List.mem_range]
+  -- pass 1
+  have plan1 : PassPlan p R [] [] (modeLevels .outputs levels (deferredOf ce1 p)) := by
+    have := planned_filter p R [] (fun n => !(deferredOf ce1 p).contains n) (fun _ _ => rfl)
+      (by
+        intro v hv u hu
+        left
+        obtain ⟨hun, hue⟩ := (mem_parentsOf p u v).mp hu
+        simp only [List.contains_eq_mem, Bool.not_eq_eq_eq_not, Bool.not_true, decide_eq_false_iff_not] at hv ⊢
+        exact fun hud => hv (hcl u hud v hue)) levels [] hplanned
+    simpa [modeLevels, removeDeferred] using this
+  have ref1 := pass_refines ce1 sols solIx p ca .outputs [] R levels hb ht plan1 (by
+    intro v hv
+    obtain ⟨hvn, hvd⟩ := (hN1 v).mp hv
+    rw [hR v hvn]
+    have : (deferredOf ce1 p).contains v = false := by simp [hvd]
+    simp only [this, Bool.false_eq_true, if_false])
+  refine ⟨?_, ref1.1, ?_⟩
+  · -- every node exactly once over the two passes
+    apply List.Perm.trans _ hperm
+    rw [List.perm_iff_count]
+    intro a
+    rw [List.count_append]
+    exact (C03.passes_partition levels (deferredOf ce1 p) a).2.2
+  · intro g1 d1 c1 hok
+    rw [ref1.1] at hok
+    -- the first pass ran to the end, so its caches are in step with `R`
+    cases hpr : processResults p (deferredOf ce1 p) ca
+        ((modeLevels .outputs levels (deferredOf ce1 p)).flatten.map fun v => (v, R v)) (emptyAcc []) with
+    | err e => rw [hpr] at hok; simp [finishInner] at hok
+    | panic m => rw [hpr] at hok; simp [finishInner] at hok
+    | abort m => rw [hpr] at hok; simp [finishInner] at hok
+    | ok val =>
+      obtain ⟨acc1, st⟩ := val
+      rw [hpr] at hok
+      simp only [finishInner] at hok
+      have hfail : ¬ (acc1.failed ≠ []) := by
+        intro hf; rw [if_pos hf] at hok; cases hok
+      rw [if_neg hfail] at hok
+      have hst : st = false := by
+        cases st
+        · rfl
+        · exact absurd (process_stop_failed _ _ _ _ _ _ hpr) hfail
+      subst hst
+      have hc1 : c1 = acc1.cache := by
+        by_cases hu : acc1.unsatisfied ≠ []
+        · rw [if_pos hu] at hok; cases hok
+        · rw [if_neg hu] at hok
+          simp only [Res.ok.injEq, Prod.mk.injEq] at hok
+          exact hok.2.2.symm
+      have inv1 := ref1.2 acc1 hpr
+      have hget : ∀ u, c1.get u =
+          if (modeLevels .outputs levels (deferredOf ce1 p)).flatten.contains u && shouldCache p (deferredOf ce1 p) u
+          then parentOut (R u) else none := by
+        intro u; rw [hc1, inv1.1 u]; rfl
+      -- pass 2
+      have plan2 : PassPlan p R c1 [] (modeLevels .checks levels (deferredOf ce1 p)) := by
+        have := planned_filter p R c1 (fun n => (deferredOf ce1 p).contains n)
+          (by
+            intro v hv
+            rw [hget v]
+            have : shouldCache p (deferredOf ce1 p) v = false := by
+              unfold shouldCache; rw [hv]; rfl
+            simp [this])
+          (by
+            intro v hv u hu
+            by_cases hud : (deferredOf ce1 p).contains u = true
+            · exact Or.inl hud
+            · right
+              obtain ⟨hun, hue⟩ := (mem_parentsOf p u v).mp hu
+              have hud' : u ∉ deferredOf ce1 p := by simpa using hud
+              have hs : shouldCache p (deferredOf ce1 p) u = true := by
+                simp only [shouldCache, Bool.and_eq_true, Bool.not_eq_eq_eq_not, Bool.not_true, List.any_eq_true]
+                exact ⟨by simpa using hud, v, hue, hv⟩
+              have hm : (modeLevels .outputs levels (deferredOf ce1 p)).flatten.contains u = true := by
+                simp only [List.contains_eq_mem, decide_eq_true_eq]
+                exact (hN1 u).mpr ⟨hun, hud'⟩
+              rw [hget u, hm, hs]; rfl) levels [] hplanned
+        simpa [modeLevels, removeNotDeferred] using this
+      have hd2 := deferredOf_program ce1 ce2 p hprog
+      have ref2 := pass_refines ce2 sols solIx p ca .checks c1 R levels hb ht (by rw [hd2]; exact plan2) (by
+        rw [hd2]
+        intro v hv
+        obtain ⟨hvn, hvd⟩ := (hN2 v).mp hv
+        rw [hR v hvn]
+        have : (deferredOf ce1 p).contains v = true := by simp [hvd]
+        simp only [this, if_true])
+      rw [hd2] at ref2
+      exact ref2.1
+
+/-! ### the reference evaluation exists and is unique (the theorems above are not vacuous) -/
+
+theorem refInputs_congr (p : Predicate) (R R' : Nat → Res String (NodeOut × Nat)) (v : Nat)
+    (h : ∀ u ∈ parentsOf p v, R u = R' u) : refInputs p R v = refInputs p R' v := by
+  unfold refInputs
+  have gen : ∀ (l : List Nat), (∀ u ∈ l, R u = R' u) →
+      l.filterMap (fun u => parentOut (R u)) = l.filterMap (fun u => parentOut (R' u)) := by
+    intro l
+    induction l with
+    | nil => intro _; rfl
+    | cons a l ih =>
+      intro hl
+      simp only [List.filterMap_cons, hl a (by simp)]
+      rw [ih (fun u hu => hl u (by simp [hu]))]
+  exact gen _ h
+
+/-- one more round of evaluating every node from the previous round's results -/
+def iter (p : Predicate) (runD : Nat → List (Stack × Memory) → Res String (NodeOut × Nat)) : Nat → Nat → Res String (NodeOut × Nat)
+  | 0 => fun _ => .err ""
+  | k+1 => fun v => runD v (refInputs p (iter p runD k) v)
+
+theorem iter_stable (p : Predicate) (runD) : ∀ (ls : List (List Nat)) (S : List Nat) (K : Nat), Planned p S ls →
+    (∀ u ∈ S, ∀ k, K ≤ k → iter p runD k u = iter p runD K u) →
+    ∀ v ∈ S ++ ls.flatten, ∀ k, K + ls.length ≤ k → iter p runD k v = iter p runD (K + ls.length) v := by
+  intro ls
+  induction ls with
+  | nil =>
+    intro S K _ hS v hv k hk
+    simp only [List.flatten_nil, List.append_nil, List.length_nil, Nat.add_zero] at hv hk ⊢
+    exact hS v hv k hk
+  | cons lv rest ih =>
+    intro S K hp hS v hv k hk
+    obtain ⟨h1, h2, h3⟩ := hp
+    have step : ∀ u ∈ S ++ lv, ∀ k, K + 1 ≤ k → iter p runD k u = iter p runD (K + 1) u := by
+      intro u hu k hk
+      rcases List.mem_append.mp hu with hu | hu
+      · rw [hS u hu k (by omega), hS u hu (K + 1) (by omega)]
+      · obtain ⟨k', rfl⟩ : ∃ k', k = k' + 1 := ⟨k - 1, by omega⟩
+        simp only [iter]
+        congr 1
+        apply refInputs_congr
+        intro w hw
+        obtain ⟨hwn, hwe⟩ := (mem_parentsOf p w u).mp hw
+        exact hS w ((h1 u hu).2.2 w hwn hwe) k' (by omega)
+    have := ih (S ++ lv) (K + 1) h3 step v (by simpa [List.append_assoc] using hv) k (by simp only [List.length_cons] at hk; omega)
+    have e : K + 1 + rest.length = K + (lv :: rest).length := by simp only [List.length_cons]; omega
+    rw [e] at this
+    exact this
+
+/-- **a reference evaluation exists** for every accepted (acyclic, well-formed) graph -/
+theorem reference_exists (ce1 ce2 : CheckEnv) (sols : List Solution) (solIx : Nat) (p : Predicate) (levels : List (List Nat))
+    (ht : topoSort p = .ok levels) : ∃ R, IsRef ce1 ce2 sols solIx p R := by
+  obtain ⟨hplanned, hcover⟩ := topoSort_planned p levels ht
+  let runD := fun v => if (deferredOf ce1 p).contains v then nodeRunner ce2 sols solIx p v else nodeRunner ce1 sols solIx p v
+  refine ⟨iter p runD levels.length, ?_⟩
+  intro v hv
+  have hs := iter_stable p runD levels [] 0 hplanned (fun u hu => by cases hu) v (by simpa using hcover v hv)
+    (levels.length + 1) (by omega)
+  simp only [Nat.zero_add] at hs
+  rw [← hs]
+  rfl
+
+/-- **and it is unique**: the results of all nodes are determined by the edges and the programs -/
+theorem reference_unique (ce1 ce2 : CheckEnv) (sols : List Solution) (solIx : Nat) (p : Predicate) (levels : List (List Nat))
+    (ht : topoSort p = .ok levels) (R R' : Nat → Res String (NodeOut × Nat))
+    (h : IsRef ce1 ce2 sols solIx p R) (h' : IsRef ce1 ce2 sols solIx p R') : ∀ v, v < p.nodes.length → R v = R' v := by
+  obtain ⟨hplanned, hcover⟩ := topoSort_planned p levels ht
+  have gen : ∀ (ls : List (List Nat)) (S : List Nat), Planned p S ls → (∀ u ∈ S, R u = R' u) → ∀ v ∈ S ++ ls.flatten, R v = R' v := by
+    intro ls
+    induction ls with
+    | nil => intro S _ hS v hv; exact hS v (by simpa using hv)
+    | cons lv rest ih =>
+      intro S hp hS v hv
+      obtain ⟨h1, h2, h3⟩ := hp
+      apply ih (S ++ lv) h3 _ v (by simpa [List.append_assoc] using hv)
+      intro u hu
+      rcases List.mem_append.mp hu with hu | hu
+      · exact hS u hu
+      · rw [h u (h1 u hu).1, h' u (h1 u hu).1]
+        have : refInputs p R u = refInputs p R' u := by
+          apply refInputs_congr
+          intro w hw
+          obtain ⟨hwn, hwe⟩ := (mem_parentsOf p w u).mp hw
+          exact hS w ((h1 u hu).2.2 w hwn hwe)
+        rw [this]
+  intro v hv
+  exact gen levels [] hplanned (fun u hu => by cases hu) v (by simpa using hcover v hv)
+
+/-! ### rejected rather than partially evaluated -/
+
+/-- a graph whose edge slices are malformed is rejected whatever the programs are: the result does
+not depend on the environment, the programs or the cache, so nothing was evaluated -/
+theorem malformed_rejected_unevaluated (ce ce' : CheckEnv) (sols sols' : List Solution) (i i' : Nat) (p : Predicate) (ca ca' : Bool)
+    (mode mode' : RunMode) (c c' : Cache) (n : Nat) (h : firstBadNode p = some n) :
+    checkPredicateInner ce sols i p ca mode c = .err (.invalidNodeEdges n) ∧
+    checkPredicateInner ce' sols' i' p ca' mode' c' = .err (.invalidNodeEdges n) := by
+  unfold checkPredicateInner; rw [h]; exact ⟨rfl, rfl⟩
+
+/-- a cyclic graph is rejected the same way -/
+theorem cyclic_rejected_unevaluated (ce : CheckEnv) (sols : List Solution) (i : Nat) (p : Predicate) (ca : Bool)
+    (mode : RunMode) (c : Cache) (hb : firstBadNode p = none) (e : PredError) (h : topoSort p = .error e) :
+    checkPredicateInner ce sols i p ca mode c = .err e := by
+  unfold checkPredicateInner; rw [hb, h]
+
+/-- the leaf interpretation: `[2]` reports the memory, `[1]` is satisfied, anything else is not -/
+theorem leaf_interpretation (stack : Stack) (mem : Memory) :
+    (if stack = [2] then NodeOut.data mem else if stack = [1] then NodeOut.satisfied true else NodeOut.satisfied false) =
+      (if stack = [2] then NodeOut.data mem else NodeOut.satisfied (decide (stack = [1]))) := by
+  by_cases h2 : stack = [2]
+  · simp [h2]
+  · by_cases h1 : stack = [1] <;> simp [h1, h2]
 
 end Essential.C01
